@@ -29,6 +29,14 @@ pub struct Sc {
     /// also go through `okane primitive eval` (eval placement only)
     pub cli: bool,
     pub exhaustive_index: Option<u64>,
+    /// eval placement: declared precision (`format`) of AAA / BBB / CCC in the ledger the
+    /// expression is evaluated against; evaluation is exact whatever a format says
+    #[serde(default)]
+    pub formats: Vec<u32>,
+    /// eval placement: expressions (well formed or not) the same process evaluates first; what
+    /// an expression evaluates to must not depend on what was asked before
+    #[serde(default)]
+    pub history: Vec<String>,
 }
 
 pub struct C08;
@@ -146,13 +154,35 @@ fn has_div(e: &Expr) -> bool {
     }
 }
 
-fn base_entries() -> Vec<Entry> {
+fn base_entries(formats: &[u32]) -> Vec<Entry> {
+    let mut decls: Vec<Entry> = Vec::new();
+    for (c, dp) in COMS[1..].iter().zip(formats.iter()) {
+        let num = if *dp == 0 { "1,000".to_string() } else { format!("1,000.{}", "0".repeat(*dp as usize)) };
+        decls.push(Entry::Commodity {
+            name: c.to_string(),
+            aliases: vec![],
+            format: Some(format!("{} {}", num, c)),
+        });
+    }
     let mut t = Txn::new(Date::new(2024, 1, 1), "base");
     for c in &COMS[1..] {
         t.postings.push(Posting::with_amount("X:Base", "1", c));
     }
     t.postings.push(Posting::new("X:Equity"));
-    vec![Entry::Txn(t)]
+    decls.push(Entry::Txn(t));
+    decls
+}
+
+/// A value expression that does not parse: parentheses left open, an operator without its
+/// operand, a stray closing parenthesis.
+fn malformed(rng: &mut Rng) -> String {
+    let depth = 1 + rng.usize(6);
+    match rng.below(4) {
+        0 => format!("{}1 AAA + 2 AAA", "(".repeat(depth)),
+        1 => format!("{}1 AAA + {}", "(".repeat(depth), ")".repeat(depth)),
+        2 => format!("{}3 BBB * (2 + {}", "(".repeat(depth), ")".repeat(depth.saturating_sub(1))),
+        _ => format!("{}1 AAA{} )", "(".repeat(depth), ")".repeat(depth)),
+    }
 }
 
 fn dec_close(a: Dec, b: Dec) -> bool {
@@ -174,8 +204,8 @@ fn amt_close(a: &Amt, b: &Amt, exact: bool) -> bool {
 }
 
 /// The world that carries `expr` at `place`; `None` when the placement does not apply.
-fn build_world(expr: &Expr, place: &str) -> Option<World> {
-    let mut entries = base_entries();
+fn build_world(expr: &Expr, place: &str, formats: &[u32]) -> Option<World> {
+    let mut entries = base_entries(if place == "eval" { formats } else { &[] });
     let mut t = Txn::new(Date::new(2024, 2, 1), "focus");
     let mut p = Posting::new("T:A");
     match place {
@@ -262,17 +292,39 @@ impl Check for C08 {
         };
         let n = 2 + rng.usize(3);
         let procs = (0..n).map(|_| random_proc(rng, false)).collect();
+        let cli = rng.chance(1, 3);
+        let mut formats = Vec::new();
+        let mut history = Vec::new();
+        if exh.is_none() && place == "eval" {
+            if rng.chance(1, 3) {
+                formats = (0..3).map(|_| rng.below(3) as u32).collect();
+            }
+            if rng.chance(1, 25) {
+                // a long-lived process that was asked 20-90 things before, a good part of them malformed
+                let k = 20 + rng.usize(70);
+                for _ in 0..k {
+                    if rng.chance(2, 3) {
+                        history.push(malformed(rng));
+                    } else {
+                        let d = 1 + rng.usize(3);
+                        history.push(format!("({} )", typed_amt(rng, d, &COMS[1..]).render()));
+                    }
+                }
+            }
+        }
         Sc {
             expr,
             place: place.to_string(),
             procs,
-            cli: rng.chance(1, 3),
+            cli,
             exhaustive_index: exh,
+            formats,
+            history,
         }
     }
 
     fn execute(&self, sc: &Sc, out: &mut RunOut) {
-        let world = match build_world(&sc.expr, &sc.place) {
+        let world = match build_world(&sc.expr, &sc.place, &sc.formats) {
             Some(w) => w,
             None => {
                 out.count("dc.placement does not apply (value too long for a literal)");
@@ -311,7 +363,20 @@ impl Check for C08 {
                 let vfs = make_vfs(&files, &no_faults, p, today);
                 // the CLI wraps its argument in parentheses; do the same
                 let wrapped = format!("({} )", text);
+                if !sc.history.is_empty() {
+                    out.count("probe.asked-after-a-history-of-other-expressions");
+                }
+                if !sc.formats.is_empty() {
+                    out.count("probe.evaluated-against-declared-formats");
+                }
                 let run = with_ledger(&vfs, p, &root, None, out, |ctx, ledger| {
+                    let ectx = query::EvalContext {
+                        date: chrono::NaiveDate::from_ymd_opt(2024, 6, 1).unwrap(),
+                        exchange: None,
+                    };
+                    for h in &sc.history {
+                        let _ = ledger.eval(ctx, h, &ectx);
+                    }
                     ledger
                         .eval(
                             ctx,
@@ -543,6 +608,25 @@ impl Check for C08 {
             let mut s = sc.clone();
             s.cli = false;
             out.push(s);
+        }
+        if !sc.formats.is_empty() {
+            let mut s = sc.clone();
+            s.formats.clear();
+            out.push(s);
+        }
+        if !sc.history.is_empty() {
+            let mut s = sc.clone();
+            s.history.clear();
+            out.push(s);
+            let h = sc.history.len() / 2;
+            if h > 0 {
+                let mut s = sc.clone();
+                s.history.truncate(h);
+                out.push(s);
+                let mut s = sc.clone();
+                s.history.drain(..h);
+                out.push(s);
+            }
         }
         if sc.procs.len() > 2 {
             for i in 0..sc.procs.len() {
